@@ -41,7 +41,7 @@ MC_LockNames == IF Deep THEN {gG1, gG2, gNope} ELSE {gG1, gNope}
 MC_PNames == {}  MC_ANames == {}  MC_PRates == {}  MC_ARates == {}
 MC_FrameKinds == {}  MC_ColKinds == {}  MC_Tags == {1}  MC_CallerIds == {}
 MC_Files == <<>>
-Dump == PrintT(ToJson([path |-> hist, op |-> lastOp', out |-> lastOut', sets |-> lastSets',
+Dump == ~Sampled(Len(hist)) \/ PrintT(ToJson([path |-> hist, op |-> lastOp', out |-> lastOut', sets |-> lastSets',
                        post |-> [hdr |-> AbsHdr(obj'.hdr), prm |-> obj'.prm, grp |-> obj'.grp, frm |-> obj'.frm]]))
 
 \* C09: what was asked is what is stored, and nothing else moves
